@@ -7,7 +7,7 @@ Require Import Grist.Model.MetaCascade Grist.Proofs.MetaCascade_base Grist.Proof
   Grist.Proofs.MetaCascade_rm4 Grist.Proofs.MetaCascade_rm5
   Grist.Proofs.MetaCascade_add Grist.Proofs.MetaCascade_add2 Grist.Proofs.MetaCascade_add3
   Grist.Proofs.MetaCascade_add4 Grist.Proofs.MetaCascade_add5 Grist.Proofs.MetaCascade_add6
-  Grist.Proofs.MetaCascade_add7
+  Grist.Proofs.MetaCascade_add7 Grist.Proofs.MetaCascade_regroup
   Grist.Proofs.MetaCascade_upd Grist.Proofs.MetaCascade_upd2 Grist.Proofs.MetaCascade_upd3.
 Open Scope Z_scope.
 
@@ -126,4 +126,80 @@ Proof.
   intros m H. induction H as [|m os m' Hr IH Hs Hb].
   - vm_compute. reflexivity.
   - apply (run_bundle_preserves os m m' Hs IH Hb).
+Qed.
+
+(* ---------------------------------------------------------------------------------------------- *)
+(* all modelled actions, update_summary_section under its guard *)
+
+Lemma remove_columns_regroup_guarded_inv : forall cols rs m m',
+  Inv m -> remove_columns_regroup_guarded cols rs m = Ok m' -> Inv m'.
+Proof.
+  intros cols rs m m' HI H. unfold remove_columns_regroup_guarded in H.
+  destruct (negb (all_in cols (cids m))); [discriminate|].
+  destruct (negb (nodupb cols)); [discriminate|].
+  destruct (existsb _ (m_columns m)); [discriminate|].
+  destruct (apply_regroups_guarded rs m) as [m1| |] eqn:E; simpl in H; try discriminate.
+  apply (remove_columns_core_inv [] cols m1 m'); [apply (apply_regroups_guarded_inv rs m m1 HI E) | exact H].
+Qed.
+
+Theorem step_guarded_inv : forall o m m', Inv m -> step_guarded o m = Ok m' -> Inv m'.
+Proof.
+  intros o m m' HI H. destruct (regroups_op o) eqn:Er.
+  - destruct o; try discriminate Er; simpl in H.
+    + apply (apply_regroup_guarded_inv r m m' HI H).
+    + apply (remove_columns_regroup_guarded_inv cols rs m m' HI H).
+  - apply (step_inv o m m' Er HI). destruct o; try discriminate Er; exact H.
+Qed.
+
+Theorem steps_guarded_inv : forall os m m', Inv m -> steps_guarded os m = Ok m' -> Inv m'.
+Proof.
+  induction os as [|o t IH]; intros m m' HI H; simpl in H.
+  - inversion H; subst. exact HI.
+  - destruct (step_guarded o m) as [m1| |] eqn:E; simpl in H; try discriminate.
+    apply (IH m1 m'); [apply (step_guarded_inv o m m1 HI E) | exact H].
+Qed.
+
+Theorem run_bundle_guarded_preserves : forall os m m',
+  RefsResolve m = true -> run_bundle_guarded os m = Ok m' -> RefsResolve m' = true.
+Proof.
+  intros os m m' HR H. unfold RefsResolve in HR. apply andb_true_iff in HR. destruct HR as [HR _].
+  apply refs_core_iff in HR. unfold run_bundle_guarded in H.
+  destruct (steps_guarded os m) as [m1| |] eqn:E; unfold bind in H; try discriminate.
+  pose proof (steps_guarded_inv os m m1 HR E) as HI1.
+  apply RefsResolve_iff. apply (auto_fix_inv _ m1 m' HI1 H).
+Qed.
+
+(* the guarded run is the faithful run whenever it is defined *)
+Lemma step_guarded_agrees : forall o m m', step_guarded o m = Ok m' -> step o m = Ok m'.
+Proof.
+  intros o m m' H. destruct o; try exact H; simpl in *.
+  - apply apply_regroup_guarded_agrees. exact H.
+  - unfold remove_columns_regroup_guarded, remove_columns_regroup in *.
+    destruct (negb (all_in cols (cids m))); [discriminate|].
+    destruct (negb (nodupb cols)); [discriminate|].
+    destruct (existsb _ (m_columns m)); [discriminate|].
+    destruct (apply_regroups_guarded rs m) as [m1| |] eqn:E; simpl in H; try discriminate.
+    rewrite (apply_regroups_guarded_agrees rs m m1 E). simpl. exact H.
+Qed.
+
+Theorem run_bundle_guarded_agrees : forall os m m', run_bundle_guarded os m = Ok m' -> run_bundle os m = Ok m'.
+Proof.
+  intros os m m' H. unfold run_bundle_guarded, run_bundle in *.
+  destruct (steps_guarded os m) as [m1| |] eqn:E; unfold bind in H; try discriminate.
+  assert (Es : steps os m = Ok m1).
+  { clear H. revert m m1 E. induction os as [|o t IH]; intros m m1 E; simpl in *; [exact E|].
+    destruct (step_guarded o m) as [m2| |] eqn:E2; simpl in E; try discriminate.
+    rewrite (step_guarded_agrees o m m2 E2). simpl. apply IH. exact E. }
+  rewrite Es. unfold bind. exact H.
+Qed.
+
+Inductive reachable_g : meta -> Prop :=
+| reachg_init : reachable_g empty_meta
+| reachg_bundle : forall m os m', reachable_g m -> run_bundle_guarded os m = Ok m' -> reachable_g m'.
+
+Theorem reachable_g_resolve : forall m, reachable_g m -> RefsResolve m = true.
+Proof.
+  intros m H. induction H as [|m os m' Hr IH Hb].
+  - vm_compute. reflexivity.
+  - apply (run_bundle_guarded_preserves os m m' IH Hb).
 Qed.
